@@ -8,7 +8,7 @@
 (* reported ("REJECT <line> <op> <failed checks>") and does not block the  *)
 (* rest of the trace, so one finding cannot hide another.                  *)
 (***************************************************************************)
-EXTENDS RtaBase, Json, IOUtils, TraceSupply
+EXTENDS RtaBase, Json, IOUtils, TraceSupply, TraceArrival, TraceCost
 
 Rec == ndJsonDeserialize(IOEnv.TRACE)
 
@@ -18,6 +18,13 @@ vars == <<l, nbad>>
 Fails(e) ==
     CASE e.op = "sbf" -> SupplyFails(e)
       [] e.op = "sbf_equiv" -> SbfEquivFails(e)
+      [] e.op = "eta" -> EtaFails(e)
+      [] e.op = "jit_compose" -> JitComposeFails(e)
+      [] e.op = "steps" -> StepsFails(e)
+      [] e.op = "cost" -> CostFails(e)
+      [] e.op = "demand" -> DemandFails(e)
+      [] e.op = "cost_trace" -> CostTraceFails(e)
+      [] e.op = "cost_ext" -> CostExtFails(e)
       [] OTHER -> {"unknown_op"}
 
 Init == l = 1 /\ nbad = 0
